@@ -306,9 +306,17 @@ def check_polynomial(ctx, mesh, dname, ax, dx, order, periodic, valid, cls):
     L = n[ax]
     ndeg = 4
     other_shape = tuple(k for j, k in enumerate(n) if j != ax)
-    g = rng.uniform(0.5, 2.0, other_shape) * rng.choice([-1, 1], other_shape)
-    h = rng.normal(size=other_shape)
-    coefs = [rng.uniform(0.5, 2.0, c + 1) * rng.choice([-1, 1], c + 1) for c in range(ndeg)]
+    # one case in five stores whole numbers in an integer-typed field (the derivative of
+    # integer data is still a real number)
+    as_int = rng.random() < 0.2
+    if as_int:
+        g = rng.integers(1, 3, other_shape) * rng.choice([-1, 1], other_shape)
+        h = rng.integers(-5, 6, other_shape)
+        coefs = [rng.integers(1, 4, c + 1) * rng.choice([-1, 1], c + 1) for c in range(ndeg)]
+    else:
+        g = rng.uniform(0.5, 2.0, other_shape) * rng.choice([-1, 1], other_shape)
+        h = rng.normal(size=other_shape)
+        coefs = [rng.uniform(0.5, 2.0, c + 1) * rng.choice([-1, 1], c + 1) for c in range(ndeg)]
     arr = np.zeros((*n, ndeg))
     exp = np.zeros((*n, ndeg))
     claimed = np.zeros((*n, ndeg), dtype=bool)  # exactness promised here
@@ -342,8 +350,13 @@ def check_polynomial(ctx, mesh, dname, ax, dx, order, periodic, valid, cls):
         runlen[line] = rl
         wraps[line] = wl
         claimed[line] = cl
-    info = dict(cls, order=order, axis=dname, n=n, cell=dx)
-    f = mk_field(mesh, arr, valid)
+    info = dict(cls, order=order, axis=dname, n=n, cell=dx, integer_dtype=as_int)
+    if as_int:
+        dt = gen.pick(rng, [int, np.int64, np.int32])
+        f = mk_field(mesh, np.rint(arr).astype(np.int64), valid, dtype=dt)
+        ctx.event("integer_typed_fields")
+    else:
+        f = mk_field(mesh, arr, valid)
     okc, dfield = ctx.expect_ok("C04.diff.accepted",
                                 lambda: f.diff(dname, order=order), what=info)
     if not okc:
